@@ -200,8 +200,9 @@ inline void BuildProgram(Source& s, Lane l, DynNode& obj, ProgStyle style, int a
 					static const uint8_t kinds[] = { 0, 2, 3 };
 					op.key.ikind = s.pick(l, kinds);
 					op.key.i = -1;
-					const uint32_t im = s.draw(l, 3);
-					if (im != 0 && n > 0)
+					const uint32_t im = s.draw(l, 5);
+					if (im >= 3) { op.key.i = im == 3 ? 0 : 1; op.key.ikind = 0; }   // what a freshly constructed key slot holds
+					else if (im != 0 && n > 0)
 					{
 						const Key& from = obj.keys[s.draw(l, n)];
 						if (from.isInt && from.ikind != 1) { op.key.i = im == 1 ? from.i + 1 : -from.i; op.key.ikind = 0; }
